@@ -34,7 +34,7 @@ func (t *justTable) match(rule, fn, construct string) *justifiedEntry {
 }
 
 // runBounds discharges all bounds obligations of the given functions.
-func runBounds(r *Run, rc *RuleCtx, fns []*ssa.Function, jt *justTable, sums map[*ssa.Function]*IntSummary) {
+func runBounds(r *Run, rc *RuleCtx, fns []*ssa.Function, jt *justTable, sums map[*ssa.Function]*IntSummary, opts ...func(*Prover)) {
 	p := r.P
 	sumFn := func(f *ssa.Function) *IntSummary {
 		if s, ok := sums[f]; ok {
@@ -51,6 +51,9 @@ func runBounds(r *Run, rc *RuleCtx, fns []*ssa.Function, jt *justTable, sums map
 		r.Analysed(fn)
 		pr := newProver(p, fn)
 		pr.Sum = sumFn
+		for _, o := range opts {
+			o(pr)
+		}
 		for _, ob := range boundsObligations(pr, fn) {
 			ok, trivial, failed, facts := dischargeObligation(pr, ob)
 			key := fnName(fn) + "|" + ob.Desc + "|" + ob.Kind
